@@ -666,8 +666,14 @@ func (vc *FnVC) builtin(in *ssa.Call, b *ssa.Builtin) {
 			old := fmt.Sprintf("(select %s %s)", vc.heapGet(c, s), arr)
 			vc.fact(fmt.Sprintf("(forall ((i Int)) (! (= (select %s i) (ite (and (<= %s i) (< i %s)) %s (select %s i))) :pattern ((select %s i))))", f, lo, hi, vc.zeroValue(st.Elem()), old, f))
 			vc.heapSet(c, s, fmt.Sprintf("(store %s %s %s)", vc.heapGet(c, s), arr, f))
+		} else if mt, ok := args[0].Type().Underlying().(*types.Map); ok {
+			// clear(m): a write to the map after which no key is present
+			vC, _, hC, hS := vc.mapComps(mt.Key(), mt.Elem())
+			vc.checkWrite(vC, x.S, "", "map "+vc.valueText(args[0])+" (clear)", in.Pos())
+			hh := vc.heapGet(hC, hS)
+			vc.heapSet(hC, hS, fmt.Sprintf("(store %s %s ((as const (Array %s Bool)) false))", hh, x.S, vc.sortOf(mt.Key())))
 		} else {
-			vc.notes = append(vc.notes, "clear() on non-scalar slice or map: havoc")
+			vc.notes = append(vc.notes, "clear() on a slice of objects: not modelled")
 		}
 	case "delete":
 		m := vc.val(args[0])
